@@ -26,10 +26,10 @@ func init() {
 			"call a user function, return early, fresh local); events = all sequences to depth 4 (quick) / 5 (thorough) over the events whose handler exists (2 payloads each, incl. non-ASCII, " +
 			"empty, fractional and NaN). After every delivered event the cumulative platform trace is compared with (1) the reference interpreter and (2) the equivalent procedure " +
 			"program (handlers turned into functions, events into calls) run on the real evaluator. States = distinct (program, printed globals) pairs reached; transitions = deliveries.",
-		Assumptions: []string{"handler bodies are drawn from the menu; the browser event loop (pkg/wasm) is not executed"},
-		TrustedBase: []string{"reference interpreter"},
-		Run:         runC15,
-		Replay:      replayC15,
+		Assumptions:   []string{"handler bodies are drawn from the menu; the browser event loop (pkg/wasm) is not executed"},
+		TrustedBase:   []string{"reference interpreter"},
+		Run:           runC15,
+		Replay:        replayC15,
 		DeadlineQuick: 4 * time.Minute, DeadlineThorough: 25 * time.Minute,
 		Vacuity: func(m *fw.Result) string {
 			if m.Counters["transitions"] < 10000 || m.Counters["states"] < 500 {
